@@ -261,6 +261,51 @@ Proof.
   - destruct (trav_ok TStart s) eqn:E1; [|discriminate]. intros H; inversion H; subst. split; [exact E1|now left].
 Qed.
 
+(* ---------- the dynamic-blocks extension *)
+
+(* where a block's body enables dynamic blocks and a dependent body with block types is found, the body in
+   force has a block type "dynamic" built from exactly those block types *)
+Lemma dynamic_offered_for_dependent_blocks b labels v d :
+  js_dyn (jb_body b) = true ->
+  find (fun d => cond_holds labels v (fst d)) (jb_dep b) = Some d ->
+  js_blocks (snd d) <> [] ->
+  alookup "dynamic" (js_blocks (inner_schema b labels v)) = Some (dynamic_block (propagate_dyn (js_blocks (snd d)))).
+Proof.
+  intros Hd Hf Hne. unfold inner_schema. rewrite Hf, Hd.
+  destruct (js_blocks (snd d)) as [|x r] eqn:E; [contradiction|].
+  cbn [propagate_dyn map]. cbn. reflexivity.
+Qed.
+
+(* ... where none is found (or none is declared), from all block types of the static body *)
+Lemma dynamic_offered_for_static_blocks b labels v :
+  js_dyn (jb_body b) = true ->
+  find (fun d => cond_holds labels v (fst d)) (jb_dep b) = None ->
+  js_blocks (jb_body b) <> [] ->
+  alookup "dynamic" (js_blocks (inner_schema b labels v)) = Some (dynamic_block (propagate_dyn (js_blocks (jb_body b)))).
+Proof.
+  intros Hd Hf Hne. unfold inner_schema. rewrite Hf, Hd.
+  destruct (js_blocks (jb_body b)) as [|x r] eqn:E; [contradiction|]. cbn. reflexivity.
+Qed.
+
+(* a dynamic block labelled with a block type holds exactly one block type, "content", and content is
+   decoded with the body of THAT block type (the first of that name), whatever other types may be generated *)
+Lemma dynamic_content_is_the_named_type types t blk v :
+  alookup t types = Some blk ->
+  inner_schema (dynamic_block types) [t] v =
+  JSch ["for_each"; "iterator"; "labels"] false [("content", JBlk 0 (jb_body blk) [])] false.
+Proof.
+  intros Hl. unfold inner_schema, dynamic_block. cbn [jb_body jb_dep js_dyn].
+  assert (Hf : find (fun d : jcond * jschema => cond_holds [t] v (fst d))
+                    (map (fun tb : string * jblock => (JCLabel 0 (fst tb), JSch [] false [("content", JBlk 0 (jb_body (snd tb)) [])] false)) types)
+               = Some (JCLabel 0 t, JSch [] false [("content", JBlk 0 (jb_body blk) [])] false)).
+  { induction types as [|[t' b'] r IH]; [discriminate|].
+    cbn [alookup] in Hl. cbn [map find fst snd cond_holds nth_error].
+    destruct (String.eqb t t') eqn:E.
+    - inversion Hl; subst. apply String.eqb_eq in E. subst. reflexivity.
+    - apply IH. exact Hl. }
+  rewrite Hf. cbn. reflexivity.
+Qed.
+
 (* ---------- non-vacuity *)
 Definition ex_schema : jschema :=
   JSch ["name"] false
